@@ -1,0 +1,20 @@
+//go:build verif
+
+package aghalg
+
+// Contracts for govc (see /verif/DESIGN.md).  This file is comment-only and is compiled only with -tags=verif.
+
+// The sorted map touches only its own key slice and value map (the elements of the key array, which nothing else
+// reads, are left out of the frame).  Range calls cb on the pairs in key order; what cb does to the variables it
+// captured is NOT modelled, so nothing may be concluded about them after Range (the contracts using it make no such claim).
+//@ func (m *SortedMap[K, V]) Set(key K, val V)
+//@   trusted
+//@   modifies m.keys, entries(m.vals)
+//@ func (m *SortedMap[K, V]) Del(key K)
+//@   trusted
+//@   nullable m
+//@   modifies m.keys, entries(m.vals)
+//@ func (m *SortedMap[K, V]) Range(cb func(K, V) (cont bool))
+//@   trusted
+//@   nullable m
+//@   modifies nothing
